@@ -172,7 +172,9 @@ fn parse_string(pair: Pair<Rule>, pc: &mut PositionCalculator) -> Result<Positio
     let pair = exactly_one(pair.into_inner());
     Ok(Positioned::new(
         match pair.as_rule() {
-            Rule::block_string_content => block_string_value(pair.as_str()),
+            Rule::block_string_content => {
+                block_string_value(pair.as_str()).replace("\\\"\"\"", "\"\"\"")
+            }
             Rule::string_content => string_value(pair.as_str()),
             _ => unreachable!(),
         },
